@@ -4,6 +4,7 @@ package main
 import (
 	"fmt"
 	"os"
+	"runtime/debug"
 
 	"gvh/common"
 )
@@ -13,6 +14,8 @@ func main() {
 		fmt.Fprintln(os.Stderr, "usage: c09 <probe|hist|det|detchild|dedup|rename|corpus> -k v ...")
 		os.Exit(2)
 	}
+	// engines are created by the thousand; keep the collector ahead of the allocation rate
+	debug.SetMemoryLimit(3 << 30)
 	a := common.Args(os.Args[2:])
 	switch os.Args[1] {
 	case "hist":
